@@ -6,6 +6,7 @@ import (
 	"errors"
 	"fmt"
 	"io"
+	"io/fs"
 	"os"
 	"syscall"
 	"time"
@@ -47,7 +48,7 @@ var ErrInjected = errors.New("injected fault")
 
 // fault kinds that make the call fail: "err" (a plain error value), and errno values as the
 // operating system reports them (wrapped in *os.PathError): "eagain", "eintr" (both "temporary"),
-// "enospc", "eio".
+// "enospc", "eio", "enoent", "notexist".
 func isErr(k string) bool { return errOf(k) != nil }
 
 func errOf(k string) error {
@@ -62,6 +63,10 @@ func errOf(k string) error {
 		return &os.PathError{Op: "write", Path: "efivarfs", Err: syscall.ENOSPC}
 	case "eio":
 		return syscall.EIO
+	case "enoent": // "no such file" reported for an operation on a file that is open (a variable deleted meanwhile)
+		return &os.PathError{Op: "read", Path: "efivarfs", Err: syscall.ENOENT}
+	case "notexist": // an error that merely wraps fs.ErrNotExist
+		return fmt.Errorf("efivarfs: stale handle: %w", fs.ErrNotExist)
 	}
 	return nil
 }
